@@ -164,6 +164,7 @@ type helperInfo struct {
 	// what to blank out once every use is inlined
 	declFrom, declTo token.Pos
 	isClosure        bool
+	isExpr           bool      // body is a single `return expr`: substituted as an expression
 	litFrom, litTo   token.Pos // closure: range of the literal (identifiers inside are local)
 	sites            int
 	done             int
@@ -217,6 +218,11 @@ func normalizeRound(repo string, overlay map[string][]byte, env []string, tags s
 					if why := notInlinable(h, info); why != "" {
 						normalizeNotes = append(normalizeNotes, fmt.Sprintf("helper %s kept: %s", h.key, why))
 					} else {
+						if len(fd.Body.List) == 1 && h.sig.Results().Len() == 1 {
+							if rs, ok := fd.Body.List[0].(*ast.ReturnStmt); ok && len(rs.Results) == 1 {
+								h.isExpr = true
+							}
+						}
 						helpers[obj] = h
 					}
 				}
@@ -306,6 +312,38 @@ func normalizeRound(repo string, overlay map[string][]byte, env []string, tags s
 		off := func(pos token.Pos) int { return tf.Offset(pos) }
 		var sp []splice
 		var inlined [][2]token.Pos
+		// expression helpers (`func h(a T) R { return expr }`) are substituted wherever they
+		// are called with simple arguments
+		var exprRanges [][2]token.Pos
+		ast.Inspect(f, func(n ast.Node) bool {
+			call, ok := n.(*ast.CallExpr)
+			if !ok {
+				return true
+			}
+			h := helpers[calleeOf(call, info)]
+			if h == nil || !h.isExpr {
+				return true
+			}
+			for _, hh := range helpers {
+				if hh.file == f && call.Pos() >= hh.body.Pos() && call.Pos() < hh.body.End() {
+					return true // inside a helper body: next round
+				}
+			}
+			for _, r := range exprRanges {
+				if call.Pos() >= r[0] && call.End() <= r[1] {
+					return true // nested in a call already substituted: next round
+				}
+			}
+			hsrc, _ := srcOf(h.file)
+			txt, ok := buildExprInline(fset, p.Types, info, src, off, f, call, h, hsrc)
+			if !ok {
+				return true
+			}
+			sp = append(sp, splice{off(call.Pos()), off(call.End()), txt})
+			exprRanges = append(exprRanges, [2]token.Pos{call.Pos(), call.End()})
+			h.done++
+			return true
+		})
 		var visitList func(list []ast.Stmt)
 		var visitStmt func(s ast.Stmt)
 		insideHelper := func(pos token.Pos) bool {
@@ -319,6 +357,11 @@ func normalizeRound(repo string, overlay map[string][]byte, env []string, tags s
 		tryInline := func(s ast.Stmt) bool {
 			if insideHelper(s.Pos()) {
 				return false // bodies of helpers are copied, not edited; their own calls wait
+			}
+			for _, r := range exprRanges {
+				if r[0] >= s.Pos() && r[1] <= s.End() {
+					return false // an expression helper was substituted inside: next round
+				}
 			}
 			site := findSite(s, info, helpers)
 			if site == nil {
@@ -411,7 +454,37 @@ func normalizeRound(repo string, overlay map[string][]byte, env []string, tags s
 			tf := fset.File(h.file.Pos())
 			from, to := tf.Offset(h.declFrom), tf.Offset(h.declTo)
 			blank := strings.Repeat("\n", bytes.Count(src[from:to], []byte("\n")))
-			perFile[path] = append(perFile[path], splice{from, to, blank})
+			// the helper's file may import packages only the helper used: keep them referenced
+			keep := ""
+			if !h.isClosure {
+				seen := map[string]bool{}
+				ast.Inspect(h.body, func(n ast.Node) bool {
+					se, ok := n.(*ast.SelectorExpr)
+					if !ok {
+						return true
+					}
+					id, ok := se.X.(*ast.Ident)
+					if !ok {
+						return true
+					}
+					if _, isPkg := info.Uses[id].(*types.PkgName); !isPkg || seen[id.Name] {
+						return true
+					}
+					switch info.Uses[se.Sel].(type) {
+					case *types.TypeName:
+						keep += fmt.Sprintf("var _ %s.%s; ", id.Name, se.Sel.Name)
+						seen[id.Name] = true
+					case *types.Func, *types.Var:
+						keep += fmt.Sprintf("var _ = %s.%s; ", id.Name, se.Sel.Name)
+						seen[id.Name] = true
+					case *types.Const:
+						keep += fmt.Sprintf("const _ = %s.%s; ", id.Name, se.Sel.Name)
+						seen[id.Name] = true
+					}
+					return true
+				})
+			}
+			perFile[path] = append(perFile[path], splice{from, to, keep + blank})
 			normalizeNotes = append(normalizeNotes, fmt.Sprintf("helper %s dissolved into its %d call site(s)", h.key, h.done))
 		case h.done > 0:
 			normalizeNotes = append(normalizeNotes, fmt.Sprintf("helper %s inlined at %d of %d uses (kept)", h.key, h.done, h.sites))
